@@ -380,7 +380,7 @@ SOURCE = '; verif\n.byte 1\n'
 
 def _write(case, td):
     import yaml
-    isa = os.path.join(td, 'isa.yaml')
+    isa = os.path.join(td, case.get('isa_file', 'isa.yaml'))
     with open(isa, 'w') as f:
         f.write(yaml.safe_dump(case['doc'], default_flow_style=False, sort_keys=False))
     src = os.path.join(td, 'main.asm')
@@ -535,6 +535,17 @@ def gen_require_cases(rng, tier):
              'instructions': {'nop': {'bytecode': {'value': 0, 'size': 8}}}}
         out.append({'doc': d, 'source': f'{line}\n.byte 1\n', 'isa_name': name, 'isa_version': isa_v, 'req_name': req_name, 'op': op,
                     'req_version': req_v, 'cli': rng.random() < 0.05})
+    # a definition without an identifier: the language is named after the configuration file (its name without the
+    # final extension, so 'tiny-cpu.v2.yaml' defines 'tiny-cpu.v2'), version 0.0.1
+    for fname in ('tiny-cpu.v2.yaml', 'z80.yaml', 'my.cpu.rev.b.yaml', 'plain.json.yaml'):
+        stem = fname.rsplit('.', 1)[0]
+        for req_name in (stem, stem.split('.')[0], stem + '.x'):
+            for op, req_v in ((None, None), ('>=', '0.0.1'), ('==', '0.0.2')):
+                line = f'#require "{req_name}"' if op is None else f'#require "{req_name} {op} {req_v}"'
+                d = doc0('unused', '1.0.0')
+                del d['general']['identifier']
+                out.append({'doc': d, 'isa_file': fname, 'source': f'{line}\n.byte 1\n', 'isa_name': stem, 'isa_version': '0.0.1',
+                            'req_name': req_name, 'op': op, 'req_version': req_v, 'cli': False})
     return out
 
 
